@@ -339,15 +339,22 @@ HIST_ALPHABET = [
     ('POST', '/item', None, None),
     ('GET', '/r', ('raise', 'StrRaises', 'ascii'), 'rn'),
     ('GET', '/r', ('return', 'none'), 'm2.render.before'),
+    ('OTHER-APP', 'reraise', None, None),      # another, default-configured Application in the process is made to re-raise
 ]
 PROBES = [('GET', '/r'), ('GET', '/n'), ('GET', '/item'), ('POST', '/item'), ('PUT', '/item'), ('GET', '/nope'),
-          ('HEAD', '/item')]
+          ('HEAD', '/item'), ('GET', '/sum/1/x/2'), ('BOOM', '/r')]
 
 
 def probe(A):
     out = []
     A.ctl.beh = None
     for m, p in PROBES:
+        if m == 'BOOM':
+            A.ctl.where, A.ctl.beh, A.ctl.fired = 'ep', ('raise', 'ValueError', 'ascii'), False
+            r = wsgi.call(A.app, p, 'GET')
+            A.ctl.beh = None
+            out.append((m, p, r.status, (r.body or b'')[:40], None, repr(r.raised) if r.raised else None))
+            continue
         r = wsgi.call(A.app, p, m)
         out.append((m, p, r.status, r.body, r.header('Allow'), repr(r.raised) if r.raised else None))
     return out
@@ -355,6 +362,12 @@ def probe(A):
 
 def send(A, letter):
     m, p, beh, where = letter
+    if m == 'OTHER-APP':
+        from clastic import Application
+        other = Application([('/boom', lambda: 1 / 0)])
+        other.error_handler.reraise_uncaught = True          # what serve() does when the debugger is on
+        other.serve(_jk_just_testing=True, use_meta=False, use_static=False, use_reloader=False)
+        return wsgi.call(other, '/boom', 'GET')
     A.ctl.where, A.ctl.beh, A.ctl.raised, A.ctl.fired = where, beh, None, False
     r = wsgi.call(A.app, p, m)
     A.ctl.beh = None
